@@ -3,8 +3,9 @@ import DocsModel.Model.Tables
 # `src/store/fs/migrations.rs`: rebuilding the derived tables when a database is opened
 
 `migration_001_populate_latest_table` runs when the head table is empty and the records table is
-not; `migration_004_populate_by_key_index` runs when the by-key index is empty. (002/003 concern
-the pre-0.1 namespace table and are not modelled.)
+not; `migration_004_populate_by_key_index` runs when the by-key index is empty.
+`migration_002_namespaces_populate_v2` / `003` copy a first-generation capability table
+(`namespaces-1`: id → secret) into the current one as write capabilities and delete it.
 -/
 
 namespace Tables
@@ -24,8 +25,24 @@ def migration004 (t : T) : T :=
   if !t.byKey.isEmpty then t
   else { t with byKey := t.records.foldl (fun idx e => k3Insert (e.ns, e.key, e.author) idx) [] }
 
+/-- `migration_002` (+ `003`): every row `id → secret` of the first-generation table becomes the
+row `id → (write, secret)` of the current table (replacing a row with the same id); the old table is
+deleted afterwards -/
+def migration002 (t : T) (v1 : List (Bytes × Bytes)) : T :=
+  v1.foldl (fun t r => { t with namespaces := nsInsert (r.1, 1, r.2) t.namespaces }) t
+
+/-- a database from before the current capability table: the write capabilities live in
+`namespaces-1` (read capabilities did not exist then; rows of that kind stay where they are) -/
+def toV1 (t : T) : T × List (Bytes × Bytes) :=
+  ({ t with namespaces := t.namespaces.filter (fun r => r.2.1 != 1) },
+   (t.namespaces.filter (fun r => r.2.1 == 1)).map fun r => (r.1, r.2.2))
+
 /-- `Store::persistent` on an existing file: `run_migrations` -/
 def reopen (t : T) : T := migration004 (migration001 t)
+
+/-- the same with a first-generation capability table present (order of `run_migrations`: 001, 002,
+003, 004) -/
+def reopenV1 (t : T) (v1 : List (Bytes × Bytes)) : T := migration004 (migration002 (migration001 t) v1)
 
 /-- a database written by an earlier version: without the head table and/or the by-key index -/
 def dropDerived (t : T) (dropLatest dropByKey : Bool) : T :=
